@@ -359,17 +359,29 @@ def _interval(ctx: Ctx, c: Collector) -> None:
     srcp, destp = T.var(gfi.params[0]), T.var(gfi.params[1])
     pr = []
     rts = gs.returns
-    chain = None
-    for e in gs.of_kind("bind"):
-        if e.term[2][0] == "bag" and len(e.term[2][1]) == 1 and e.term[2][1][0][1] == srcp:
-            chain = e.term[1]
-    if chain is None:
-        pr.append("the source's ancestor chain does not start with the source group itself")
+    # the source's ancestor chain: [src, src.parent, src.parent.parent, ...]; as an append-accumulator
+    # it is normalised to a bag, otherwise it is an opaque local
+    idx_calls = [e for e in gs.of_kind("call") if e.term[1][0] == "attr" and e.term[1][2] == "index" and e.term[2] == (destp,)]
+    if not idx_calls:
+        pr.append("the common group is not looked up in the source's ancestor chain")
     else:
-        apps = [e for e in gs.of_kind("call") if e.term[1] == ("attr", chain, "append")]
-        if not apps or apps[0].term[2] != (("attr", srcp, "parent"),) or not any(i[1] == ("while",) for i in apps[0].iters):
-            pr.append("the source's ancestor chain is not extended by every parent")
-        if not rts or rts[0].term[0] != "tuple" or len(rts[0].term[1]) != 3 or rts[0].term[1][0] != call(("attr", chain, "index"), destp) or rts[0].term[1][2] != destp:
+        look = idx_calls[0]
+        chain = look.term[1][1]
+        if chain[0] == "bag":
+            els = chain[1]
+            ok_chain = len(els) == 2 and els[0][1] == srcp and not els[0][3] and els[1][1] == ("attr", srcp, "parent") and any(i[1] == ("while",) for i in els[1][3])
+            if not ok_chain:
+                pr.append("the source's ancestor chain is not [src] extended by every parent")
+        else:
+            init = [e for e in gs.of_kind("bind") if e.term[1] == chain]
+            if not init or not (init[0].term[2][0] == "bag" and len(init[0].term[2][1]) == 1 and init[0].term[2][1][0][1] == srcp):
+                pr.append("the source's ancestor chain does not start with the source group itself")
+            apps = [e for e in gs.of_kind("call") if e.term[1] == ("attr", chain, "append")]
+            if not apps or not any(i[1] == ("while",) for i in apps[0].iters):
+                pr.append("the source's ancestor chain is not extended by every parent")
+        rts = gs.returns
+        okret = any(r.term[0] == "tuple" and len(r.term[1]) == 3 and r.term[1][0] == look.term and r.term[1][2] == destp for r in rts)
+        if not okret:
             pr.append("does not return (index of the common group in the source chain, descent, common group)")
         climbs = [e for e in gs.of_kind("bind") if e.term[1] == destp and e.term[2] == ("attr", destp, "parent")]
         if not climbs:
@@ -379,8 +391,7 @@ def _interval(ctx: Ctx, c: Collector) -> None:
                 pr.append("the destination climbs to its parent although it has none / stops although it has one (guard of the climb is not `dest.parent`)")
             if not any(i[1] == ("while",) and T.strip(i[2]) == T.const(True) for i in climbs[0].iters):
                 pr.append("the search for the common group is not repeated until it is found")
-        look = [e for e in gs.of_kind("call") if chain is not None and e.term == call(("attr", chain, "index"), destp)]
-        if look and not any(r == "body" for _, r in look[0].tries):
+        if not any(r == "body" for _, r in look.tries):
             pr.append("a destination group that is not an ancestor of the source ends the search (ValueError not handled)")
     c.add("group_path", GROUP_PATH, "ascent = index of first common ancestor", VIOLATED if pr else DISCHARGED, "; ".join(pr), gfi.loc)
 
